@@ -167,7 +167,9 @@ inductive StmtText : Node → List Rune → List Rune → Prop
       ((doc = [] ∧ d = []) ∨ (doc ≠ [] ∧ CommentOK doc ∧ Eol e ∧ (endsWithCp doc CR = true → e ≠ [asc NL]) ∧ Ws ws0 ∧
         d = asc HASH :: doc ++ e ++ ws0)) →
       Ws ws1 → IdentRunes name → Ws ws2 → ParenText deps p → OutsText outs o → BodyText cmds b →
-      (∀ r, rest.head? = some r → r.cp ≠ RBRACE) →
+      -- what follows the closing brace is not a brace: the command loop tests for `{{` / `}}` *after*
+      -- the rune it has just read before it tests that rune itself
+      (∀ r, rest.head? = some r → r.cp ≠ RBRACE ∧ r.cp ≠ LBRACE) →
       StmtText (.task name doc deps outs cmds)
         (d ++ asc 116 :: asc 97 :: asc 115 :: asc 107 :: ws1 ++ name ++ ws2 ++ p ++ o ++ asc LBRACE :: b ++ [asc RBRACE]) rest
 
